@@ -111,3 +111,33 @@ contract(E + ':EndpointsMgr.unlink_spec', types=EP_TYPES,
                   '        old(fs_target(self._base_path, spec_name(appname, proto, endpoint, real_port, pid, port)))[1] == owner[1]), '
                   '  fs_same())'],
          modifies=['fs'], props=['C14'])
+
+
+# ------------------------------------------------------------------ unlink_all (what a finishing container calls)
+ufunc('glob_match', ['Name', 'Name'], 'Bool')      # fnmatch(name, pattern): dependency, uninterpreted
+
+
+@spec
+def spec_unchanged(self, n):
+    return (fs_kind(self._base_path, n) == old(fs_kind(self._base_path, n)) and
+            fs_target(self._base_path, n) == old(fs_target(self._base_path, n)))
+
+
+UA_SAFE = ('forall(lambda n: implies(owner is not None and not (old(fs_kind(self._base_path, n)) == 2 and '
+           '       old(fs_target(self._base_path, n))[1] == owner), spec_unchanged(self, n)), "Name")')
+UA_ELSE = 'forall(lambda e, m: implies(e != self._base_path, fs_kind(e, m) == old(fs_kind(e, m))), "Int", "Int")'
+contract(E + ':EndpointsMgr.unlink_all',
+         types={'appname': 'Name', 'proto': 'Opt[Name]', 'endpoint': 'Opt[Name]', 'owner': 'Opt[Name]',
+                'filename': 'Name', 'pattern': 'Path'},
+         requires=['forall(lambda n: fs_kind(self._base_path, n) == 0 or fs_kind(self._base_path, n) == 2, "Name")'],
+         ensures=[# a spec bound to another owner is never released by this call (release only by the owner)
+                  ('C14', UA_SAFE, 'foreign_specs_untouched'),
+                  # whatever changed was removed, and matched the instance's pattern
+                  ('C14', 'forall(lambda n: implies(not spec_unchanged(self, n), fs_kind(self._base_path, n) == 0), "Name")',
+                   'only_removals'),
+                  ('C14', UA_ELSE, 'frame')],
+         modifies=['fs'], props=['C14'])
+invariant(E + ':EndpointsMgr.unlink_all', 0, 'for filename in glob.glob(pattern)',
+          [UA_SAFE, UA_ELSE,
+           'forall(lambda n: implies(not spec_unchanged(self, n), fs_kind(self._base_path, n) == 0), "Name")',
+           'forall(lambda n: fs_kind(self._base_path, n) == 0 or fs_kind(self._base_path, n) == 2, "Name")'])
